@@ -364,6 +364,138 @@ func c15Concurrent(prefix []int, mode string, chain []string) explore.Outcome {
 	return finishOutcome(res, obs, viol, true)
 }
 
+// c15OwnSession: "with the request's own context and session". Two pass-through middlewares; the
+// outer one leaves the request's id on the session it finds in the context, the inner one, the tool
+// handler and the outer one's after-stage read it back. Two clients issue one request each at the
+// same time, then a third request follows. In stateless mode a request's session is its own
+// throw-away one: nothing of another request may ever be found on it.
+func c15OwnSession(prefix []int, mode string) explore.Outcome {
+	var viol []explore.Violation
+	obs := &hx.Log{}
+	key := func(k string) string { return fmt.Sprintf("%s:%s:own-session", k, mode) }
+	res := vsched.Run(cfgFor(prefix), func() {
+		vsched.SetBranching(false)
+		notes := &hx.Log{}
+		sessOf := func(ctx context.Context) mcp.Session {
+			if s, ok := mcp.GetSessionFromContext(ctx); ok && s != nil {
+				return s
+			}
+			return nil
+		}
+		read := func(ctx context.Context, stage string, id interface{}) {
+			s := sessOf(ctx)
+			if s == nil {
+				notes.Add("%v %s nosession", id, stage)
+				return
+			}
+			v, _ := s.GetData("c15-owner")
+			notes.Add("%v %s sid=%s owner=%v", id, stage, s.GetID(), v)
+		}
+		outer := func(next mcp.HandlerFunc) mcp.HandlerFunc {
+			return func(ctx context.Context, req *mcp.JSONRPCRequest) (mcp.JSONRPCMessage, error) {
+				if req.Method != "tools/call" {
+					return next(ctx, req)
+				}
+				read(ctx, "found", req.ID)
+				if s := sessOf(ctx); s != nil {
+					s.SetData("c15-owner", fmt.Sprint(req.ID))
+				}
+				r, err := next(ctx, req)
+				read(ctx, "outer-after", req.ID)
+				return r, err
+			}
+		}
+		inner := func(next mcp.HandlerFunc) mcp.HandlerFunc {
+			return func(ctx context.Context, req *mcp.JSONRPCRequest) (mcp.JSONRPCMessage, error) {
+				if req.Method == "tools/call" {
+					read(ctx, "inner-before", req.ID)
+				}
+				return next(ctx, req)
+			}
+		}
+		var opts []interface{}
+		if mode == "ls" {
+			opts = append(opts, mcp.WithSSEMiddleware(outer, inner))
+		} else {
+			opts = append(opts, mcp.WithMiddleware(outer, inner))
+		}
+		r := NewRig(mode, opts...)
+		r.RegisterTool(mcp.NewTool("t", mcp.WithNumber("id")), func(ctx context.Context, req *mcp.CallToolRequest) (*mcp.CallToolResult, error) {
+			id, _ := req.Params.Arguments["id"].(float64)
+			read(ctx, "handler", int(id))
+			return mcp.NewTextResult("ok"), nil
+		})
+		peers := []*RawPeer{NewRawPeer(r), NewRawPeer(r)}
+		for i, p := range peers {
+			if err := p.Handshake(); err != nil {
+				viol = append(viol, V(key(fmt.Sprintf("handshake-of-client-%d-fails", i+1)), "with pass-through middlewares configured, the handshake of client %d fails: %v", i+1, err))
+				return
+			}
+		}
+		vsched.Quiesce()
+		vsched.SetBranching(true)
+		call := func(p *RawPeer, id int) {
+			if _, err := p.Call(fmt.Sprintf(`{"jsonrpc":"2.0","id":%d,"method":"tools/call","params":{"name":"t","arguments":{"id":%d}}}`, id, id), fmt.Sprint(id)); err != nil {
+				viol = append(viol, V(key("no-answer"), "request %d: %v", id, err))
+			}
+		}
+		done := &hx.Counter{}
+		for i, p := range peers {
+			i, p := i, p
+			vsched.Go("client", func() { call(p, 70+i); done.Inc() })
+		}
+		vsched.Quiesce()
+		if done.Get() == 2 {
+			call(peers[0], 80)
+		}
+		// judge
+		stateless := mode == "sl" || mode == "slj"
+		sidOf := map[string]string{}
+		for _, n := range notes.Items() {
+			var id, stage, rest string
+			parts := strings.SplitN(n, " ", 3)
+			id, stage = parts[0], parts[1]
+			if len(parts) > 2 {
+				rest = parts[2]
+			}
+			if rest == "nosession" {
+				if mode != "sd" {
+					viol = append(viol, V(key("no-session"), "request %s, stage %s: no session in the context", id, stage))
+				}
+				continue
+			}
+			var sid, owner string
+			fmt.Sscanf(rest, "sid=%s owner=%s", &sid, &owner)
+			if prev, ok := sidOf[id]; ok && prev != sid {
+				viol = append(viol, V(key("session-changes-within-request"), "request %s saw session %s and then %s", id, prev, sid))
+			}
+			sidOf[id] = sid
+			switch stage {
+			case "found":
+				if stateless && owner != "<nil>" {
+					viol = append(viol, V(key("foreign-data-on-fresh-session"), "stateless mode: request %s found the data of request %s on its session", id, owner))
+				}
+			default:
+				if owner != id {
+					viol = append(viol, V(key("session-data-of-another-request"), "request %s left its id on its session; at stage %s it reads back %q", id, stage, owner))
+				}
+			}
+		}
+		if mode != "sd" {
+			if a, b := sidOf["70"], sidOf["71"]; a != "" && a == b {
+				viol = append(viol, V(key("two-clients-one-session"), "the requests of two clients were given the same session %s", a))
+			}
+			if stateless && sidOf["80"] != "" && (sidOf["80"] == sidOf["70"] || sidOf["80"] == sidOf["71"]) {
+				viol = append(viol, V(key("stateless-session-reused"), "stateless mode: a later request was given the session %s of an earlier one", sidOf["80"]))
+			}
+		}
+		obs.Add("%d notes", len(notes.Items()))
+	})
+	return finishOutcome(res, obs, viol, true)
+}
+
+var c15OwnModes = []string{"sl", "slj", "ss", "sj", "sd", "ls"}
+
 var c15ConcChains = [][]string{{"pass", "modres"}, {"modreq", "modres"}, {"modreq", "modreq"}, {"pass", "fail"}, {"modres", "short"}, {"failafter", "modres"}}
 
 func init() {
@@ -376,11 +508,19 @@ func init() {
 				Run: func(p []int, m []vsched.ChoicePoint) explore.Outcome { return c15Concurrent(p, mode, ch) }})
 		}
 	}
+	for _, mode := range c15OwnModes {
+		mode := mode
+		RegisterScenario(&Scenario{Name: "c15/own-session/" + mode, Doc: "two clients, one request each at the same time, then a third: what a middleware leaves on the session of its request is what the inner stages, the handler and its own after-stage read back; in stateless mode no request ever finds another's data or session",
+			Run: func(p []int, m []vsched.ChoicePoint) explore.Outcome { return c15OwnSession(p, mode) }})
+	}
 	RegisterCheck("C15", func(c *Ctx) {
 		c.Level = "exploration"
-		c.Rule = "complete enumeration of chains x methods x option forms x transports, each executed end to end and compared with a reference onion interpreter (stage trace with the request's own session, handler run count, what the client receives; notifications bypass); DFS over schedules of two concurrent requests through length-2 chains"
+		c.Rule = "complete enumeration of chains x methods x option forms x transports, each executed end to end and compared with a reference onion interpreter (stage trace with the request's own session, handler run count, what the client receives; notifications bypass); DFS over schedules of two concurrent requests through length-2 chains, and of two concurrent requests whose outer middleware marks the request's session and whose inner stages read the mark back (stateful, stateless, sessions disabled, legacy SSE)"
 		c.Assume = append(c.Assume, "a short-circuiting or failing chain also intercepts initialize: the judged request is then sent without a completed handshake", "memnet replaces net/http")
 		c.Enumerate("c15/chains")
+		for _, mode := range c15OwnModes {
+			c.DFSBoth("c15/own-session/"+mode, explore.Bounds{Preempt: c.Pick(2, 3), Dev: 1, MaxExec: c.Pick(3000, 100000)}, 1)
+		}
 		for _, mode := range []string{"ss", "ls"} {
 			for _, ch := range c15ConcChains {
 				c.DFSBoth(fmt.Sprintf("c15/concurrent/%s/%s", mode, strings.Join(ch, "+")), explore.Bounds{Preempt: c.Pick(2, 3), Dev: 1, MaxExec: c.Pick(3000, 100000)}, 1)
